@@ -273,7 +273,7 @@ def uses_constant(w, a):
 
 
 def generate(rng, tier):
-    n_worlds = {"quick": 40, "thorough": 200}[tier]
+    n_worlds = {"quick": 40, "thorough": 160}[tier]
     cases = []
     for _ in range(n_worlds):
         w = G.gen_world(rng, max_actions=2)
@@ -845,7 +845,7 @@ ALIAS_KINDS = ["swap", "swap", "rotation", "chain", "chain", "permutation", "ove
 
 
 def alias_cases(rng, tier):
-    n_worlds = {"quick": 12, "thorough": 60}[tier]
+    n_worlds = {"quick": 12, "thorough": 40}[tier]
     cases = []
     for _ in range(n_worlds):
         w, params = alias_world(rng)
@@ -1036,7 +1036,7 @@ def shape_names(rng, w, a, v):
 
 
 def alpha_cases(rng, tier):
-    n_worlds = {"quick": 20, "thorough": 90}[tier]
+    n_worlds = {"quick": 20, "thorough": 60}[tier]
     cases = []
     for _ in range(n_worlds):
         w, a = alpha_world(rng)
@@ -1266,7 +1266,7 @@ def run(args):
         cases += mirror_cases(rng, args.tier)
         cases += alias_cases(rng, args.tier)
         cases += alpha_cases(rng, args.tier)
-        cases += sequence_cases(rng, cases, {"quick": 24, "thorough": 100}[args.tier])
+        cases += sequence_cases(rng, cases, {"quick": 24, "thorough": 80}[args.tier])
     cfg = run_impl([{"op": "core.numeric_config"}], nproc=1)[0]
     hashseeds = [0] if args.tier == "quick" else [0, 1]
     # the cases with mirrored set members run under further hash seeds (which member a set-walking renaming meets first -
@@ -1392,14 +1392,14 @@ def run(args):
                    "of each other under the swap / permutation / rotation / chain / overlap that is then applied (and, as a control, under fresh names), "
                    "with probe states in which one member holds and its image does not; these cases run under further hash seeds "
                    "(hash_seeds_mirrored_cases) and a case whose observation does not change with the hash seed is not judged twice. "
-                   "Plus sequences of calls on one action (24 quick / 100 thorough): a mapping then its inverse, the same mapping two or three "
+                   "Plus sequences of calls on one action (24 quick / 80 thorough): a mapping then its inverse, the same mapping two or three "
                    "times, a second mapping chosen for the renamed action (kinds 'roundtrip:', 'twice:', 'then:', 'there-and-back-and-on:'). "
-                   "Plus 'alias' worlds (12 quick / 60 thorough; also 35% of the ordinary worlds): the variables of the (:predicates) / "
+                   "Plus 'alias' worlds (12 quick / 40 thorough; also 35% of the ordinary worlds): the variables of the (:predicates) / "
                    "(:functions) declarations carry the NAMES of the action parameters ((f0 ?x0 - t) used as (f0 ?x0)), every action of the "
                    "domain has the same parameter names, and the applications spelt like their declaration occur 1, 2, 3, 4 ... times in one "
                    "action (precondition, nested or, when- and forall-when conditions, target and right-hand side of numeric effects; action "
                    "features declared-application-occurs:even/odd), under swap / rotation / chain / permutation / overlap / fresh mappings. "
-                   "Plus 'alpha' worlds (20 quick / 90 thorough, kind 'alpha-pool'): an action with a quantified precondition and/or a "
+                   "Plus 'alpha' worlds (20 quick / 60 thorough, kind 'alpha-pool'): an action with a quantified precondition and/or a "
                    "forall-when effect in which names of the shape the library picks for a quantified variable ?v that has to move (?v_0, ?v_1, "
                    "?v_2; ?v_00, ?v_0x, ?v_0_0, ?v_10: candidates that are substrings of a name) are already taken - by a parameter that occurs "
                    "inside ?v's quantifier / only in the effect part of the forall-when / only outside the quantifier (then it is a key of the "
